@@ -3675,7 +3675,7 @@ where
 
     fn refresh_pingreq_recv(&mut self) -> Vec<GenericEvent<PacketIdType>> {
         let mut events = Vec::new();
-        if self.pingreq_recv_timeout_ms != 0 {
+        if self.pingreq_recv_timeout_ms != 0 && self.status != ConnectionStatus::Disconnected {
             self.pingreq_recv_set = true;
             events.push(GenericEvent::RequestTimerReset {
                 kind: TimerKind::PingreqRecv,
